@@ -6,5 +6,6 @@ CONSTANTS
   MaxSlots = 1
   Menus <- cMenusSmall
   ArgSel = "all"
+  Fixes = {}
 INVARIANTS Emit
 CHECK_DEADLOCK FALSE
